@@ -18,7 +18,7 @@ ASSUMPTIONS = ['anchor: docs/source/recipes.rst ("subscribes in a lifo way -> po
 PROBES = ['delivery_with_pending_events']
 PLAN = {
   'quick': {'strata': {'pending': 3000}, 'wall_s': 300, 'chunk': 50, 'min_conclusive': 800},
-  'thorough': {'strata': {'pending': 80000}, 'wall_s': 900, 'chunk': 100, 'min_conclusive': 8000},
+  'thorough': {'strata': {'pending': 80000}, 'wall_s': 900, 'chunk': 100, 'min_conclusive': 800},
 }
 
 
